@@ -130,7 +130,7 @@ func plans(c *core.Ctx, m Modes) []Plan {
 	}
 	p.Once = []int{6, 7, 8, 9, 10, 11, 12, 13, 14, 15, 16, 17, 18, 19, 20, 21, 22, 23, 24, 25, 26, 27}
 	if th {
-		p.Once = append(p.Once, 28)
+		p.Once = append(p.Once, 28, 29)
 	} else {
 		p.Kinds = p.Kinds[:27]
 	}
@@ -202,6 +202,19 @@ func plans(c *core.Ctx, m Modes) []Plan {
 	p.Kinds = []Ev{ks0, co0, ks(1, 5, 3, 2), ks(2, 6, 8, 1)}
 	p.Once, p.MaxOnce = []int{4}, 1
 	p.MaxBlocks, p.MaxEvents, p.MaxStops, p.MaxCatch, p.Replay = 3, 2, 0, pick(0, 1), pick(40, 300)
+	ps = append(ps, p)
+
+	// the property layer as an invariant of the REPAIRED alternatives (TLC only: the tree is as found)
+	p = base
+	p.Name, p.PropsOnly, p.CheckProps, p.M = "props-repaired", true, true, Repaired
+	p.Kinds = []Ev{ks0, co0, ks(1, 5, 3, 2), co(1, 5, 2), ks(2, 6, 4, 2)}
+	p.Faults = cat(fk("err", "ins", "commit"), fk("dropc"), fk("crash"), fk("crashc"), fk("rpcM"), fk("rpcB"))
+	if th {
+		p.MaxPerBlock, p.Pos = 2, []int{0, 1}
+		p.Faults = cat(fk("err", "begin", "ins", "upd", "commit"), fk("drop", "ins"), fk("dropc"), fk("crash"), fk("crashc"), fk("rpcM"), fk("rpcB"), fk("rpcL"))
+	}
+	p.StartFaults = true
+	p.MaxBlocks, p.MaxEvents, p.MaxFaults, p.MaxStops, p.MaxIdle, p.MaxCatch = pick(3, 4), pick(2, 3), pick(1, 2), 1, 0, 1
 	ps = append(ps, p)
 
 	p = base
